@@ -175,9 +175,9 @@ Section KeyPass.
   Qed.
 End KeyPass.
 
-(* the table covers the 32 wrappers and distinguishes the blocking from the trying call *)
+(* the table covers the 34 wrappers and distinguishes the blocking from the trying call *)
 Theorem passthrough_table_facts :
-  length all_uvfn = 32%nat /\
+  length all_uvfn = 34%nat /\
   passthrough UvRwlockRdlock <> passthrough UvRwlockWrlock /\
   passthrough UvRwlockRdlock <> passthrough UvRwlockTryrdlock /\
   passthrough UvRwlockWrlock <> passthrough UvRwlockTrywrlock /\
@@ -186,3 +186,36 @@ Theorem passthrough_table_facts :
   passthrough UvCondSignal <> passthrough UvCondBroadcast /\
   passthrough UvCondWait <> passthrough UvCondTimedwait.
 Proof. cbn. repeat split; discriminate. Qed.
+
+(* what the init wrappers ask for *)
+Theorem init_requests debug arg :
+  init_request debug UvRwlockInit arg = IRwlock PTHREAD_RWLOCK_PREFER_READER /\
+  init_request debug UvCondInit arg = ICond CLOCK_MONOTONIC /\
+  init_request debug UvMutexInitRecursive arg = IMutex PTHREAD_MUTEX_RECURSIVE /\
+  init_request false UvMutexInit arg = IMutex PTHREAD_MUTEX_NORMAL /\
+  init_request true UvMutexInit arg = IMutex PTHREAD_MUTEX_ERRORCHECK /\   (* only where the constant is a macro *)
+  init_request debug UvSemInit arg = ISem 0 arg /\
+  init_request debug UvBarrierInit arg = IBarrier arg.
+Proof. repeat split. Qed.
+
+Section RwKind.
+  (* pthread_rwlock_rdlock/tryrdlock as a function of the lock's kind: readers inside,
+     writer inside, writers queued in wrlock.  glibc: with the reader-preferring (default)
+     kind a reader is refused only by a writer that HOLDS the lock; with a writer-preferring
+     kind also by a queued writer while readers hold it. *)
+  Variable admits : Z -> nat -> bool -> nat -> bool.
+  Hypothesis posix_kind : forall k n w q,
+    admits k n w q = negb w && ((k =? PTHREAD_RWLOCK_PREFER_READER) || Nat.eqb q 0 || Nat.eqb n 0).
+
+  Definition uv_rwlock_kind debug :=
+    match init_request debug UvRwlockInit 0 with IRwlock k => k | _ => -1 end.
+
+  (* a lock made by uv_rwlock_init admits a further reader whenever no writer holds it --
+     in particular while a writer is queued behind the readers already inside *)
+  Theorem rwlock_admits_readers_with_writer_queued debug n w q :
+    admits (uv_rwlock_kind debug) n w q = negb w.
+  Proof.
+    unfold uv_rwlock_kind. cbn [init_request]. rewrite posix_kind.
+    unfold PTHREAD_RWLOCK_PREFER_READER. cbn. destruct w; reflexivity.
+  Qed.
+End RwKind.
